@@ -45,6 +45,8 @@ func main() {
 		cmdVC(os.Args[2:])
 	case "check":
 		cmdCheck(os.Args[2:])
+	case "ssa":
+		cmdSSA(os.Args[2:])
 	case "callees":
 		cmdCallees()
 	case "list":
@@ -185,5 +187,20 @@ func cmdCallees() {
 	sortStrings(ks)
 	for _, k := range ks {
 		fmt.Printf("%4d %s\n", cnt[k], k)
+	}
+}
+
+func cmdSSA(names []string) {
+	g, err := loadAll(env("REPO", "/repo"))
+	if err != nil {
+		fmt.Println(err)
+		os.Exit(2)
+	}
+	for _, n := range names {
+		if f := g.funcs[n]; f != nil {
+			f.WriteTo(os.Stdout)
+		} else {
+			fmt.Println("no func", n)
+		}
 	}
 }
